@@ -61,7 +61,7 @@ type HostileCase struct {
 	Script      []Answer `json:"script"`      // answers for request 0,1,2,...; the last repeats
 	DeadlineMs  int      `json:"deadline_ms"`
 	Periodic    bool     `json:"periodic,omitempty"` // run the feeder in polling mode (interval 120 ms) for 5 intervals: it must keep going until its context ends
-	JSONShape   int      `json:"json_shape,omitempty"` // rekor: 0 honest JSON, 1.. well-formed JSON with hostile content
+	JSONShape   int      `json:"json_shape,omitempty"` // rekor: 0 honest JSON, 1-8 well-formed JSON with hostile content, 9-12 honest log information with proofs whose hex elements have hostile lengths
 }
 
 const hostileOrigin = "hostile.example/log"
@@ -215,6 +215,21 @@ func (s *hostileServer) validBody(r *http.Request) []byte {
 			return []byte("[]")
 		case 7:
 			return []byte("null")
+		// 9-12: the log information is honest, the proof is well-formed JSON of well-formed
+		// hex strings - of lengths no hash has
+		case 9: // 33 bytes (the first element, and the last one of an otherwise honest proof)
+			long := append(append([]string{strings.Repeat("ab", 33)}, hs...), strings.Repeat("cd", 33))
+			pv = map[string]any{"hashes": long}
+		case 10: // 64 bytes each
+			pv = map[string]any{"hashes": []any{strings.Repeat("00", 64), strings.Repeat("ff", 64)}}
+		case 11: // empty, odd length, one byte, 31 bytes
+			pv = map[string]any{"hashes": []any{"", "0", "abc", "00", strings.Repeat("11", 31)}}
+		case 12: // one element of 100 KiB, then 300 of 32 bytes
+			many := []any{strings.Repeat("0f", 100<<10)}
+			for i := 0; i < 300; i++ {
+				many = append(many, strings.Repeat("42", 32))
+			}
+			pv = map[string]any{"hashes": many}
 		}
 		b, _ := json.Marshal(pv)
 		return b
@@ -538,7 +553,7 @@ func genHostile(rt *rapid.T) *HostileCase {
 	}
 	c.Periodic = vlib.Pct(rt, 20, "periodic")
 	if c.Feeder == "rekor" && rapid.Bool().Draw(rt, "jsonhostile") {
-		c.JSONShape = rapid.IntRange(1, 8).Draw(rt, "jsonshape")
+		c.JSONShape = rapid.IntRange(1, 12).Draw(rt, "jsonshape")
 	}
 	n := rapid.IntRange(0, 5).Draw(rt, "nscript")
 	for i := 0; i < n; i++ {
@@ -550,7 +565,7 @@ func genHostile(rt *rapid.T) *HostileCase {
 	return c
 }
 
-const ruleC19feed = "scripts of hostile log-server / distributor behaviour (per request: valid, truncated, oversized 2 MiB, random, empty body, a Content-Length of 2^62 in front of a short body, no Content-Length, a server that never answers x status 200/204/301/404/500 x connection reset; the HTTP client has a 2 s timeout of its own, as in the shipped binaries; log-signed checkpoints with sizes from {0,1,..,2^62-1,2^62,2^62+1,2^63-1,2^63,2^64-1,random} and roots of 0/5/32/33 bytes or real roots) for the serverless, sumdb, pixel, rekor and tiles feeders and the REST distributor, against a real witness that already holds a smaller honest checkpoint; executed in child processes under a watchdog; oracle: no panic, the process survives, and the cycle returns a result or an error within its context deadline + 20 s; non-trivial = the cycle got past its first validation step (a second request was made or the witness was asked to update); distinct by case hash"
+const ruleC19feed = "scripts of hostile log-server / distributor behaviour (per request: valid, truncated, oversized 2 MiB, random, empty body, a Content-Length of 2^62 in front of a short body, no Content-Length, a server that never answers x status 200/204/301/404/500 x connection reset; the HTTP client has a 2 s timeout of its own, as in the shipped binaries; log-signed checkpoints with sizes from {0,1,..,2^62-1,2^62,2^62+1,2^63-1,2^63,2^64-1,random} and roots of 0/5/32/33 bytes or real roots; for rekor also well-formed JSON with hostile content and proofs whose hex elements are 0, 1, 31, 33, 64 or 100 Ki bytes long or of odd length) for the serverless, sumdb, pixel, rekor and tiles feeders and the REST distributor, against a real witness that already holds a smaller honest checkpoint; executed in child processes under a watchdog; oracle: no panic, the process survives, and the cycle returns a result or an error within its context deadline + 20 s; non-trivial = the cycle got past its first validation step (a second request was made or the witness was asked to update); distinct by case hash"
 
 func hostileHash(c *HostileCase) string {
 	b, _ := json.Marshal(c)
@@ -659,7 +674,7 @@ func TestC19Sizes(t *testing.T) {
 			&HostileCase{Feeder: f, WitnessSize: 3, CpSize: 9, CpRootLen: 32, CpSigner: "stranger", Periodic: true},
 			&HostileCase{Feeder: f, WitnessSize: 300, CpSize: 7, CpRootLen: 32, CpSigner: "log", CpRealTree: true, Periodic: true})
 	}
-	for shape := 1; shape <= 8; shape++ {
+	for shape := 1; shape <= 12; shape++ {
 		for _, ws := range []int64{-1, 3} {
 			cases = append(cases, &HostileCase{Feeder: "rekor", WitnessSize: ws, CpSize: 9, CpRootLen: 32, CpSigner: "log", CpRealTree: true, DeadlineMs: 300, JSONShape: shape})
 		}
